@@ -137,6 +137,10 @@ def write_graph(molecule, smiles_format=False, default_element='*', name_attr='f
         if current in atom_to_ring_idx:
             # We're going to need to write a ring number
             ring_idxs = atom_to_ring_idx[current]
+            # a %nn marker directly followed by a digit is read as one longer
+            # marker; markers above 9 are therefore written after the others
+            one_digit_markers = ''
+            multi_digit_markers = ''
             for ring_idx in ring_idxs:
                 ring_bond = ring_idx_to_bond[ring_idx]
                 if ring_idx not in ring_idx_to_marker:
@@ -147,11 +151,16 @@ def write_graph(molecule, smiles_format=False, default_element='*', name_attr='f
                     marker = ring_idx_to_marker.pop(ring_idx)
                     new_marker = False
 
+                ring_str = ''
                 if _write_edge_symbol(molecule, *ring_bond) and new_marker:
                     order = molecule.edges[ring_bond].get('order', 1)
-                    smiles += order_to_symbol[order]
+                    ring_str += order_to_symbol[order]
 
-                smiles += str(marker) if marker < 10 else '%{}'.format(marker)
+                if marker < 10:
+                    one_digit_markers += ring_str + str(marker)
+                else:
+                    multi_digit_markers += ring_str + '%{}'.format(marker)
+            smiles += one_digit_markers + multi_digit_markers
 
         if current in dfs_successors:
             # Proceed to the next node in this branch
